@@ -70,18 +70,6 @@ Print Assumptions C13_predecessors_reflect.
 (* non-vacuity of the refinement hypotheses: a manifest pushed under a tag, resolved,
    fetched, re-tagged; a second manifest whose subject is the first one, found by
    Predecessors; a blob mounted from the sibling repository; deletions *)
-Definition ex_profile := mkProfile true false false true true.
-Definition ex_blob := b "layer".
-Definition ex_bdesc := mkDesc ct_octet zero_digest 5.
-Definition ex_ref := b "{subject:w}".
-Definition ex_rdesc := mkDesc mt_oci_manifest zero_digest 11.
-Definition ex_subject (c : str) : option (option desc) :=
-  if str_eqb c ex_ref then Some (Some w_desc) else Some None.
-Definition ex_ops : list op :=
-  [OPushRef w_desc w_content (b "v1"); OResolve (b "v1"); OFetchRef (b "v1"); OFetch w_desc;
-   OTag w_desc (b "v2"); OExists w_desc; OMount ex_bdesc None; OFetch ex_bdesc;
-   OPreds w_desc; ODelete w_desc; OResolve (b "v2");
-   OPushRef ex_rdesc ex_ref (b "r1"); OPreds w_desc].
 Example C13_refines_store_nonvacuous :
   wf_hist w_H (fun s => Some s) ex_subject (b "app") [] ex_profile
           (mkStore [] [] [] [(zero_digest, ex_blob)]) ex_ops /\
@@ -89,15 +77,8 @@ Example C13_refines_store_nonvacuous :
   snd (spec_run w_H ex_subject (b "app") [] (mkStore [] [] [] [(zero_digest, ex_blob)]) ex_ops)
   = [ROk; RDesc w_desc; RDescBytes w_desc w_content; RBytes w_content; ROk; RBool true; ROk;
      RBytes ex_blob; RDescs []; ROk; RErr ENotFound; ROk; RDescs [ex_rdesc]].
-Proof.
-  split; [|split; [left; discriminate|vm_compute; reflexivity]].
-  vm_compute. repeat split; auto; intros;
-    repeat match goal with
-           | X : Some _ = Some _ |- _ => injection X; clear X; intros; subst
-           | X : None = Some _ |- _ => discriminate X
-           end; auto.
-  all: try (right; split; [reflexivity|]; eexists; split; [reflexivity|discriminate]).
-Qed.
+Proof. exact refines_store_nonvacuous. Qed.
+
 
 (* ------------------------------------------------------------------ *)
 (* Every request the client emits is one the specification allows -- against ANY
@@ -172,6 +153,15 @@ Theorem C13_corruption_rejected_single_field_manifest :
     exists e, snd (man_fetch parse_mt main srv (fun s _ => (s, corrupt k r0)) s d) = RErr e.
 Proof. exact man_fetch_corrupted. Qed.
 Print Assumptions C13_corruption_rejected_single_field_manifest.
+
+(* non-vacuity: an honest 200 answer to Fetch of a 2-byte manifest is accepted; the same
+   answer with Content-Length + 1 is refused *)
+Example C13_corruption_example :
+  let honest := mkResp 200 (Some mt_oci_manifest) (Some 2) (Some zero_digest) None false None [] (b "{}") in
+  snd (man_fetch (fun s => Some s) (b "app") unit (fun s _ => (s, honest)) tt w_desc) = RBytes (b "{}") /\
+  snd (man_fetch (fun s => Some s) (b "app") unit (fun s _ => (s, corrupt KLenInc honest)) tt w_desc) = RErr EOther /\
+  contradicts_fetch (fun s => Some s) true KLenInc honest w_desc.
+Proof. vm_compute. repeat split; reflexivity. Qed.
 
 (* generateDescriptor (Resolve / FetchReference): the descriptor is what the
    response states; it carries the reference's digest when the reference is a
